@@ -98,6 +98,10 @@ def obligations(tier, seed):
     # ---- read_body over chunked bodies: nothing above the limit is ever handed on ---------------------------------------
     from .C19 import limit_obligations
     out += limit_obligations(core, tier)
+    # "however the server is assembled": the configured value survives every builder step
+    from .cfgframe import journey_obligations as _journey
+    _extra = _journey(R.bodies("server"), "max_request_body_size", "max_request_body_size", scenario="cfg_journey", fixed={"field": "max_request_body_size"})
+    out += _extra
     return out
 
 
